@@ -397,3 +397,68 @@ def check_c17(tier, seed):
         print(f'VIOLATION property={pid} replay={rp}' + (' no-failing-input-found' if kind == 'proof' else ''))
     print(f'[{pid}] theorems={obligations} discharged={obligations if proof_ok else 0} tsan_runs={len(runs)} failing={len(failing)} wall={wall:.1f}s')
     return 1 if violations else 0
+
+
+# ---------------------------------------------------------------------------------------------------------------
+# C08
+# ---------------------------------------------------------------------------------------------------------------
+def check_c08(tier, seed):
+    t0 = time.time()
+    pid = 'C08'
+    out = os.path.join(V.OUT, pid)
+    os.makedirs(out, exist_ok=True)
+    notes, violations = [], []
+    sys.path.insert(0, os.path.join(ROOT, 'translate'))
+    import evalir
+    ok1, m1 = evalir.run()
+    notes.append('evalir: ' + m1)
+    bad = V.forbidden_scan()
+    pr = V.check_properties_file(pid)
+    obligations = len(pr['theorems'])
+    proof_ok = pr['ok'] and not bad and ok1
+    src = os.path.join(ROOT, 'harness', 'c08', 'threads.cpp')
+    exe = os.path.join(out, 'threads_tsan')
+    rc, o = V.sh(['clang++', '-std=c++17', '-O1', '-g', '-fsanitize=thread', '-pthread', '-I' + os.path.join(V.REPO, 'src'), src, '-o', exe], timeout=900)
+    build_ok = rc == 0
+    runs = []
+    if build_ok:
+        reps, iters = (4, 2000) if tier == 'quick' else (12, 10000)
+        with concurrent.futures.ThreadPoolExecutor(max_workers=4) as ex:
+            runs = list(ex.map(lambda r: V.sh([exe, str(iters), str(seed * 100 + r)], timeout=1200), range(reps)))
+    else:
+        notes.append('real-thread harness does not build: ' + o[-1500:])
+    failing = [r for r in runs if r[0] != 0]
+    if failing or not build_ok:
+        replay = os.path.join(out, f'replay_{seed}.txt')
+        with open(replay, 'w') as f:
+            f.write(f'# property=C08: clang++ -std=c++17 -O1 -g -fsanitize=thread -pthread -I/repo/src {src} -o /tmp/c08 && /tmp/c08 2000 {seed * 100}\n')
+            f.write(failing[0][1][-5000:] if failing else o[-4000:])
+        violations.append(('threads' if failing else 'proof', replay, 'real-thread run failed' if failing else 'no-failing-input-found'))
+    if not proof_ok and not failing and build_ok:
+        replay = os.path.join(out, f'proof_broken_{seed}.txt')
+        with open(replay, 'w') as f:
+            f.write('property C08: the IR regenerated from connection_evaluator.h is no longer the one the theorems were proved for, or violates the lock discipline\n')
+            f.write(f'(coq/Properties_C08.v, failed at {pr.get("failed_at")}); translator: {m1}; forbidden: {bad}\n\n' + pr['log'][-4000:])
+        violations.append(('proof', replay, 'no-failing-input-found'))
+    wall = time.time() - t0
+    coverage = {
+        'obligations': obligations, 'discharged': obligations if proof_ok else 0,
+        'checker_cmd': 'python3 translate/evalir.py && cd coq && make -k Properties_C08.vo',
+        'trusted_base': ['Coq 8.16.1 kernel', 'translate/evalir.py over clang 14 JSON AST (statement shapes of the three methods; anything else becomes IUnknown)',
+                         'assumed: std::recursive_mutex makes lock-protected regions atomic w.r.t. one another; shared_ptr/weak_ptr control blocks are thread safe',
+                         'ThreadSanitizer (clang 14) and a progress watchdog as observers of the sampled real-thread executions',
+                         'Print Assumptions: ' + '; '.join(sorted(set(pr['assumptions'])))],
+        'theorems': pr['theorems'],
+        'evaluations': len(runs) * ((2000 if tier == 'quick' else 10000)), 'distinct_nontrivial': len(runs) * ((2000 if tier == 'quick' else 10000)),
+        'rule': 'one evaluation = one randomly timed scenario on real threads: 2 producers (emit / disconnect / destroy their own signal, 3 deferred '
+                'connections each, the first one slow) and 1 consumer looping over evaluation passes, alternately with and without holding the user '
+                'lock that the hook takes; distinct by seed; non-trivial by construction (every scenario emits and evaluates concurrently)',
+        'samples': [{'output': runs[0][1].strip()[-200:] if runs else ''}],
+        'source_fingerprint': V.repo_fingerprint(), 'notes': notes,
+    }
+    V.write_evidence(pid, tier, seed, 'proof', coverage, wall, len(violations),
+                     ['the C++ memory model below the level of the mutex protocol is assumed; real-thread runs are samples'])
+    for kind, rp, what in violations:
+        print(f'VIOLATION property={pid} replay={rp}' + (' no-failing-input-found' if kind == 'proof' else ''))
+    print(f'[{pid}] theorems={obligations} discharged={obligations if proof_ok else 0} thread_runs={len(runs)} failing={len(failing)} wall={wall:.1f}s')
+    return 1 if violations else 0
